@@ -86,6 +86,26 @@ def run(ctx):
                 rep.violation("corr:unmarshal:" + name, "Model of the unmarshaller disagrees with implementation on %s: impl ..%s.. model ..%s.." % (inp, im[max(0, i - 60):i + 60], mo[max(0, i - 60):i + 60]),
                               dict(inp, payload=payload.hex()[:20000]), found_input=False)
         rep.sample({"files_and_programs": len(items), "example": items[0][0], "decoded": outs[0][:200]})
+        # hypotheses of C01_main on real payloads: the strict guards of the Spec accept what the
+        # compilers wrote, and where they do the guarded and the unguarded Spec agree
+        vv = [(n, m, p, v) for n, m, p, v in items if v is not None and len(p) < 200000]
+        so = drv.ask(sum([["py.unmarshal_strict %d %d %s" % (v[0], v[1], p.hex() or "-"),
+                           "py.unmarshal %d %d %s" % (v[0], v[1], p.hex() or "-")] for _, _, p, v in vv], []))
+        n_ok = n_hyp = 0
+        outside = []
+        for k, (name, magic, payload, ver) in enumerate(vv):
+            st, ns = so[2 * k], so[2 * k + 1]
+            hyp = bool(payload) and (payload[0] & 0x7F) == 99 and magic not in (3400, 3401, 3410, 3411)
+            n_hyp += hyp
+            if st.startswith("(err"):
+                if not ns.startswith("(err"):
+                    outside.append(name)
+                continue
+            n_ok += 1
+            if st != ns:
+                rep.notes.append("spec_drift strict vs unguarded Spec on %s" % name)
+        rep.coverage["C01_main_hypotheses"] = {"payloads": len(vv), "code_object_and_released_magic": n_hyp,
+                                               "accepted_by_strict_spec": n_ok, "outside_strict_guards": outside[:20]}
     finally:
         w.close()
 
